@@ -158,7 +158,7 @@ class BulkWriteOperation(object):
                                         multi=multi, upsert=self.is_upsert,
                                         **extra_args)
             ret_val = {}
-            if result.get('upserted'):
+            if result.get('upserted') is not None:
                 ret_val['upserted'] = result.get('upserted')
                 ret_val['nUpserted'] = result.get('n')
             else:
